@@ -7,7 +7,7 @@ let tokens_s (ts : (Deb822Lex.kind * BinNums.coq_N list) list) =
 
 let items_s (it : (BinNums.coq_N list * BinNums.coq_N list) list) =
   cat "," (L.map (fun (k, v) -> hx k ^ "=" ^ hx v) it)
-let doc_items_s d = cat ";" (L.map items_s d)
+let doc_items_s d = cat "" (L.map (fun p -> "[" ^ items_s p ^ "]") d)
 
 (* stream deb822-parse: fields = [hex input] *)
 let deb822_parse (fs : string list) : string =
